@@ -190,8 +190,14 @@ void sample_states(const char *where) {
                 // messages not yet delivered to this module are discarded
                 for (auto &sd : W->sends)
                     for (int e : sd.eligible) if (e == s.idx && !sd.delivered.count(e)) sd.dead.insert(e);
-                s.pills_pending = 0;
-                s.pill_wildcard = false;
+                if (s.pills_pending && flush_phase_now()) {
+                    // the final flush walks a list of messages it has already taken out of the mailbox: a pill in that list is still
+                    // honoured if the module is stopped and restarted by an earlier message of the same list (unconstrained phase)
+                    s.pill_wildcard = true;
+                } else {
+                    s.pills_pending = 0;
+                    s.pill_wildcard = false;
+                }
                 s.pending = 0;
                 s.pending_exact = true;
             }
